@@ -86,7 +86,7 @@ enum State {
 
 fn inst(t: &TT, args: &[T]) -> T {
     match t {
-        TT::I => T::I,
+        TT::I | TT::K => T::I,
         TT::P(i) => args[*i].clone(),
         TT::D(n, a) => T::D(n.to_string(), a.iter().map(|x| inst(x, args)).collect()),
     }
